@@ -744,6 +744,169 @@ Section View.
         destruct (Hr c (or_introl eq_refl)) as (d & x & Hs).
         apply (generated_map_class_reference _ c d x Hs (defs_store_ok _ _)).
     Qed.
+
+    (* ---------------------------------------------------------------- not mappable = raises *)
+
+    (* the exceptions convert_to_schema raises on an unmappable declaration *)
+    Definition schema_exn (e : exn) : bool :=
+      match e with TypeError | NotImplementedError => true | _ => false end.
+
+    (* the literals of every Enum[...] are plain data *)
+    Fixpoint lits_plain (f : field) : bool :=
+      match f with
+      | FEnumLit vs => forallb plain_lit vs
+      | FSeqEach _ g _ _ | FSet _ (Some g) _ => lits_plain g
+      | FMapKV kf vf _ => lits_plain kf && lits_plain vf
+      | FSeqPos _ gs _ _ _ | FTuple gs _ | FAllOf gs | FAnyOf gs | FOneOf gs | FNot gs => forallb lits_plain gs
+      | _ => true
+      end.
+
+    Lemma mapM_raises {A B} (F : A -> res B) (Q : exn -> Prop) l :
+      (forall x, In x l -> (exists y, F x = Ok y) \/ (exists e, F x = Raise e /\ Q e)) ->
+      (exists x, In x l /\ exists e, F x = Raise e) ->
+      exists e, mapM F l = Raise e /\ Q e.
+    Proof.
+      induction l as [|x l IH]; intros H (x0 & Hin & e0 & He0); [destruct Hin|].
+      cbn [mapM]. destruct (H x (or_introl eq_refl)) as [(y & Ey)|(e & Ee & Qe)].
+      - rewrite Ey. cbn [bind].
+        destruct IH as (e & E & Qe).
+        + intros z Hz. apply H. right. exact Hz.
+        + destruct Hin as [->|Hin]; [congruence|]. exists x0. split; [exact Hin|]. exists e0. exact He0.
+        + exists e. rewrite E. split; [reflexivity|exact Qe].
+      - exists e. rewrite Ee. split; [reflexivity|exact Qe].
+    Qed.
+
+    Lemma forallb_false_exists {A} (p : A -> bool) l : forallb p l = false -> exists x, In x l /\ p x = false.
+    Proof.
+      induction l as [|x l IH]; cbn [forallb]; intro H; [discriminate H|].
+      destruct (p x) eqn:E.
+      - destruct (IH H) as (y & Hy & Py). exists y. split; [right; exact Hy|exact Py].
+      - exists x. split; [left; reflexivity|exact E].
+    Qed.
+
+    Definition raises (r : res pyval) : Prop := exists e, r = Raise e /\ schema_exn e = true.
+
+    Lemma raises_bind (r : res pyval) (k : pyval -> res pyval) : raises r -> raises (x <- r ;; k x).
+    Proof. intros (e & -> & Q). exists e. split; [reflexivity|exact Q]. Qed.
+
+    Definition conv_raises (f : field) : Prop :=
+      mappable f = false -> lits_plain f = true -> keys_text_ok f = true -> refs_ok f ->
+      forall fuel sm, (cfuel f <= fuel)%nat -> raises (conv fuel (field_obj f) sm).
+
+    Lemma conv_fields_raises fs :
+      Forall conv_raises fs -> forallb mappable fs = false -> forallb lits_plain fs = true ->
+      forallb keys_text_ok fs = true ->
+      (forall c, In c (flat_map field_refs fs) -> exists d x, s2s (cls_val c) PNone = Ok (PTuple [d; x])) ->
+      forall n sm, (fold_right Nat.max 0 (map cfuel fs) <= n)%nat ->
+      raises (conv (S n) (PList (map field_obj fs)) sm).
+    Proof.
+      intros HF Hm Hl Hk Hr n sm Hn. rewrite conv_S. unfold convert_to_schema_body.
+      cbn [py_is_none bind py_isinstance_any isinstance_i isinstance1 py_listcomp].
+      match goal with |- raises (r <- mapM ?F ?l ;; _) =>
+        destruct (mapM_raises F (fun e => schema_exn e = true) l) as (e & E & Qe) end.
+      - intros x Hx. apply in_map_iff in Hx. destruct Hx as (g & <- & Hg).
+        assert (Hfuel : (cfuel g <= n)%nat) by (pose proof (cfuel_in g fs Hg); lia).
+        destruct (mappable g) eqn:Eg.
+        + left. eexists.
+          rewrite (generated_convert_to_schema g Eg (forallb_In _ _ _ Hk Hg) (refs_ok_in fs g Hr Hg) n sm Hfuel).
+          reflexivity.
+        + right. rewrite Forall_forall in HF.
+          destruct (HF g Hg Eg (forallb_In _ _ _ Hl Hg) (forallb_In _ _ _ Hk Hg) (refs_ok_in fs g Hr Hg) n sm Hfuel)
+            as (e & E & Qe).
+          exists e. rewrite E. split; [reflexivity|exact Qe].
+      - destruct (forallb_false_exists _ _ Hm) as (g & Hg & Eg).
+        exists (field_obj g). split; [apply in_map; exact Hg|].
+        assert (Hfuel : (cfuel g <= n)%nat) by (pose proof (cfuel_in g fs Hg); lia).
+        rewrite Forall_forall in HF.
+        destruct (HF g Hg Eg (forallb_In _ _ _ Hl Hg) (forallb_In _ _ _ Hk Hg) (refs_ok_in fs g Hr Hg) n sm Hfuel)
+          as (e & E & Qe).
+        exists e. rewrite E. reflexivity.
+      - exists e. rewrite E. split; [reflexivity|exact Qe].
+    Qed.
+
+    Lemma raises_NIE : raises (Raise NotImplementedError).
+    Proof. exists NotImplementedError. split; reflexivity. Qed.
+    Lemma raises_TE : raises (Raise TypeError).
+    Proof. exists TypeError. split; reflexivity. Qed.
+
+    (* every declaration the hand model calls unmappable makes convert_to_schema raise TypeError or
+       NotImplementedError (never return) *)
+    Theorem generated_convert_to_schema_raises : forall f,
+        mappable f = false -> lits_plain f = true -> keys_text_ok f = true -> refs_ok f ->
+        forall fuel sm, (cfuel f <= fuel)%nat ->
+        exists e, convert_to_schema s2s defs_store fuel (field_obj f) sm = Raise e /\ schema_exn e = true.
+    Proof.
+      change (forall f, conv_raises f).
+      induction f using field_ind'; intros Hm Hl Hk Hr fuel sm Hn; try discriminate Hm;
+        need_fuel fuel Hn; rewrite conv_S, generated_convert_dispatch; cbn [is_classref mapper_of].
+      - (* FNone *) apply raises_NIE.
+      - (* FAnything *) apply raises_NIE.
+      - (* FEnumLit *)
+        cbn [mappable] in Hm. cbn [lits_plain] in Hl.
+        rewrite method_Enum, (generated_EnumMapper_to_schema_lit _ _ _ _ Hl), Hm. apply raises_TE.
+      - (* FSeqAny *) cbn [mappable] in Hm. destruct k; [discriminate Hm|]. apply raises_NIE.
+      - (* FSeqEach *)
+        cbn [mappable] in Hm. destruct k; [|apply raises_NIE]. cbn [is_list_kind andb] in *.
+        rewrite method_Array. cbn [field_obj]. rewrite generated_ArrayMapper_to_schema_seq.
+        apply raises_bind. apply IHf; [exact Hm | exact Hl | exact Hk | exact Hr | cbn [cfuel] in Hn; lia].
+      - (* FSeqPos *)
+        cbn [mappable] in Hm. destruct k; [|apply raises_NIE]. cbn [is_list_kind andb] in *.
+        need_fuel fuel Hn.
+        rewrite method_Array. cbn [field_obj]. rewrite generated_ArrayMapper_to_schema_seq.
+        apply raises_bind. apply (conv_fields_raises fs H Hm Hl Hk Hr). cbn [cfuel] in Hn; lia.
+      - (* FSet of a field *)
+        cbn [mappable] in Hm.
+        rewrite method_Array. cbn [field_obj]. rewrite generated_ArrayMapper_to_schema_set.
+        apply raises_bind. apply IHf; [exact Hm | exact Hl | exact Hk | exact Hr | cbn [cfuel] in Hn; lia].
+      - (* FTuple *)
+        cbn [mappable] in Hm. need_fuel fuel Hn.
+        rewrite method_Array. cbn [field_obj]. rewrite generated_ArrayMapper_to_schema_tuple.
+        apply raises_bind. apply (conv_fields_raises fs H Hm Hl Hk Hr). cbn [cfuel] in Hn; lia.
+      - (* FMapKV *)
+        rewrite method_Map.
+        change (field_obj (FMapKV f1 f2 sz)) with (map_obj (PList [field_obj f1; field_obj f2]) sz).
+        destruct (match f1 with FString _ => false | _ => true end) eqn:Ekey.
+        + rewrite (generated_MapMapper_to_schema_badkey _ _ f1 _ _ _ Ekey). apply raises_TE.
+        + destruct f1 as [| c | | | | | | | | | | | | | | | | |]; try discriminate Ekey.
+          cbn [mappable] in Hm. cbn [keys_text_ok] in Hk. apply andb_true_iff in Hk as [Hk1 Hk2].
+          cbn [lits_plain andb] in Hl.
+          assert (E : raises (conv fuel (field_obj f2) sm)).
+          { apply IHf2; [exact Hm | exact Hl | exact Hk2 | exact Hr | cbn [cfuel] in Hn; lia]. }
+          rewrite generated_MapMapper_to_schema_kv; [apply raises_bind; exact E | exact Hk1 |].
+          intros J HJ. destruct E as (e & E & _). rewrite E in HJ. discriminate HJ.
+      - (* FAllOf *)
+        cbn [mappable] in Hm. need_fuel fuel Hn.
+        rewrite method_AllOf.
+        change (field_obj (FAllOf fs)) with (fields_obj (s2p "AllOf") (PList (map field_obj fs))).
+        rewrite generated_AllOfMapper_to_schema.
+        apply raises_bind. apply (conv_fields_raises fs H Hm Hl Hk Hr). cbn [cfuel] in Hn; lia.
+      - (* FAnyOf *)
+        rewrite method_AnyOf, generated_AnyOfMapper_to_schema.
+        assert (G : forallb mappable fs = false ->
+                    raises (J <- conv fuel (PList (map field_obj fs)) sm ;; Ok (PDict [(PStr (s2p "anyOf"), J)]))).
+        { intro Hm'. need_fuel fuel Hn. apply raises_bind.
+          apply (conv_fields_raises fs H Hm' Hl Hk Hr). cbn [cfuel] in Hn; lia. }
+        destruct fs as [|a [|b [|c r]]]; try (apply G; exact Hm).
+        + destruct b; try (apply G; exact Hm).
+          cbn [mappable] in Hm. inversion H as [|? ? Ha _]; subst.
+          apply Ha; [exact Hm | | | | cbn [cfuel map fold_right] in Hn; lia].
+          * cbn [lits_plain forallb] in Hl. apply andb_true_iff in Hl as [Hl _]. exact Hl.
+          * cbn [keys_text_ok forallb] in Hk. apply andb_true_iff in Hk as [Hk _]. exact Hk.
+          * intros x Hx. apply Hr. cbn [field_refs flat_map]. apply in_or_app. left. exact Hx.
+        + destruct b; apply G; exact Hm.
+      - (* FOneOf *)
+        cbn [mappable] in Hm. need_fuel fuel Hn.
+        rewrite method_OneOf.
+        change (field_obj (FOneOf fs)) with (fields_obj (s2p "OneOf") (PList (map field_obj fs))).
+        rewrite generated_OneOfMapper_to_schema.
+        apply raises_bind. apply (conv_fields_raises fs H Hm Hl Hk Hr). cbn [cfuel] in Hn; lia.
+      - (* FNot *)
+        cbn [mappable] in Hm. need_fuel fuel Hn.
+        rewrite method_Not.
+        change (field_obj (FNot fs)) with (fields_obj (s2p "NotField") (PList (map field_obj fs))).
+        rewrite generated_NotFieldMapper_to_schema.
+        apply raises_bind. apply (conv_fields_raises fs H Hm Hl Hk Hr). cbn [cfuel] in Hn; lia.
+    Qed.
   End Main.
 End View.
 
@@ -772,6 +935,21 @@ Proof.
   split; [vm_compute; reflexivity|]. split; [vm_compute; reflexivity|].
   split; [intros c _; eexists; eexists; reflexivity|].
   split; [reflexivity|]. split; [vm_compute; lia|]. vm_compute. reflexivity.
+Qed.
+
+(* Array[Map[Integer, String]] (a key field that is not a String), and a Deque: not mappable, and they raise *)
+Definition ex_unmappable : field :=
+  FSeqEach SeqList (FMapKV (FNumber KInteger SAny no_numc) (FString no_strc) no_sizec) no_sizec false.
+
+Example raises_side_conditions_satisfiable :
+  mappable ex_unmappable = false /\ lits_plain ex_unmappable = true /\
+  keys_text_ok ex_pat_text ex_unmappable = true /\ refs_ok ex_s2s ex_unmappable /\
+  convert_to_schema ex_s2s ex_store 4 (field_obj ex_pat_text ex_unmappable) PNone = Raise TypeError /\
+  convert_to_schema ex_s2s ex_store 4 (field_obj ex_pat_text (FSeqAny SeqDeque no_sizec false)) PNone
+  = Raise NotImplementedError.
+Proof.
+  split; [reflexivity|]. split; [reflexivity|]. split; [reflexivity|].
+  split; [intros c []|]. split; vm_compute; reflexivity.
 Qed.
 
 (* the disagreement, on a concrete declaration: Map[String(pattern=''), Integer] (pattern id 0 has the empty text).
@@ -814,5 +992,7 @@ Print Assumptions generated_get_mapper.
 Print Assumptions generated_convert_dispatch.
 Print Assumptions generated_convert_list.
 Print Assumptions generated_convert_to_schema.
+Print Assumptions generated_convert_to_schema_raises.
 Print Assumptions side_conditions_satisfiable.
+Print Assumptions raises_side_conditions_satisfiable.
 Print Assumptions source_vs_hand_model_empty_key_pattern.
